@@ -14,6 +14,12 @@ def tables():
     return settings, defaults, regs
 
 
+# the settings whose values are strings on the configuration surface of the pinned commit
+PINNED_STRING_KEYS = {"log-file", "pid-file", "cpu-cap", "stats-format", "stats-http-addr", "stats-http-port", "sflow-addr", "sflow-topic",
+                      "sflow-mirror-addr", "ipfix-addr", "ipfix-topic", "ipfix-mirror-addr", "ipfix-tpl-cache-file", "netflow5-addr",
+                      "netflow5-topic", "netflow9-addr", "netflow9-topic", "netflow9-tpl-cache-file", "mq-name", "mq-config-file"}
+
+
 def hx(s):
     return "x" + s.encode().hex()
 
@@ -55,7 +61,10 @@ class P:
                 env["VFLOW_" + tag[f].upper().replace("-", "_")] = spelled; E += [f, hx(srcs["env"])]
             if "file" in srcs:
                 v = srcs["file"]
-                filelines.append("%s: %s" % (tag[f], v if kind[f] != "string" else json.dumps(v))); F += [f, hx(srcs["file"])]
+                # a setting that takes a STRING (as of the pinned commit: addresses, topics, file names, the stats port ...) is written
+                # as users write strings, quoted - whatever type the field has in the tree under test
+                quoted = kind[f] == "string" or tag[f] in PINNED_STRING_KEYS
+                filelines.append("%s: %s" % (tag[f], json.dumps(v) if quoted else v)); F += [f, hx(srcs["file"])]
             if "cli" in srcs:
                 where = pre if (rng is not None and rng.random() < 0.3) else args
                 if rng is not None and kind[f] != "bool" and rng.random() < 0.5:
